@@ -333,6 +333,166 @@ theorem mul_pos_right_mono (c x x' : Dbl) (hc : c.mag < infMag) (hc0 : 0 < c.mag
   obtain ⟨g1, g2, g3⟩ := mulMag_spec c.mag
   exact signed_mono (mulMag c.mag) g1 g2 g3 x x' h
 
+/-! ### conversion to the nearest double fixes the doubles -/
+
+/-- value of a normal significand times a power of two has the expected binary logarithm -/
+theorem log2_shift (a k : Nat) (h1 : 2 ^ 52 ≤ a) (h2 : a < 2 ^ 53) : (a * 2 ^ k).log2 = 52 + k := by
+  have hne : a * 2 ^ k ≠ 0 := by
+    have := Nat.two_pow_pos k
+    have : 0 < a * 2 ^ k := Nat.mul_pos (by omega) this
+    omega
+  have lo : 52 + k ≤ (a * 2 ^ k).log2 := by
+    rw [Nat.le_log2 hne, Nat.pow_add]
+    exact Nat.mul_le_mul_right _ h1
+  have hi : (a * 2 ^ k).log2 < 53 + k := by
+    rw [Nat.log2_lt hne, Nat.pow_add]
+    exact (Nat.mul_lt_mul_right (Nat.two_pow_pos k)).mpr h2
+  omega
+
+/-- conversion to the nearest double fixes the doubles: the exact value of a finite double converts back to
+its own bits -/
+theorem nearestBits_magVal (m : Nat) (h : m < infMag) : nearestBits (magVal m) (2 ^ 1074) = m := by
+  have hden : (2 : Nat) ^ 1074 ≠ 0 := by have := Nat.two_pow_pos 1074; omega
+  rw [nearestBits_eq _ _ hden]
+  have hm : m = (m / 2 ^ 52) * 2 ^ 52 + m % 2 ^ 52 := by
+    have := Nat.div_add_mod m (2 ^ 52); omega
+  have r1 : m % 2 ^ 52 < 2 ^ 52 := Nat.mod_lt _ (Nat.two_pow_pos 52)
+  have hex : m / 2 ^ 52 < 2047 := by unfold infMag at h; omega
+  generalize m / 2 ^ 52 = ex at *
+  generalize m % 2 ^ 52 = fr at *
+  have key : nbRaw (magVal m * 2 ^ 1074) (2 ^ 1074) = m := by
+    unfold nbRaw
+    rw [Nat.mul_div_cancel _ (Nat.two_pow_pos 1074)]
+    rw [hm, magVal_eq ex fr r1]
+    by_cases h0 : ex = 0
+    · subst h0
+      simp only [if_true, Nat.zero_mul, Nat.zero_add]
+      have hl : fr.log2 - 52 = 0 := by
+        by_cases hf : fr = 0
+        · subst hf; simp
+        · have := (Nat.log2_lt hf).mpr r1; omega
+      rw [hl, Nat.pow_zero, Nat.mul_one, divRoundHalfEven_exact _ _ (Nat.two_pow_pos 1074)]
+      omega
+    · rw [if_neg h0]
+      have hl := log2_shift (fr + 2 ^ 52) (ex - 1) (by omega) (by omega)
+      rw [hl]
+      have e : 52 + (ex - 1) - 52 = ex - 1 := by omega
+      rw [e]
+      have e2 : (fr + 2 ^ 52) * 2 ^ (ex - 1) * 2 ^ 1074 = (fr + 2 ^ 52) * (2 ^ 1074 * 2 ^ (ex - 1)) := by
+        generalize 2 ^ 1074 = A
+        generalize 2 ^ (ex - 1) = B
+        ac_rfl
+      rw [e2, divRoundHalfEven_exact _ _ (Nat.mul_pos (Nat.two_pow_pos 1074) (Nat.two_pow_pos _))]
+      clear e2 hl e hden h hm hex
+      obtain ⟨j, rfl⟩ : ∃ j, ex = j + 1 := ⟨ex - 1, by omega⟩
+      simp only [Nat.add_sub_cancel]
+      omega
+  rw [key]
+  simp [h]
+
+/-- `x + 0` is `x` (up to the sign of a zero) for a finite `x` -/
+theorem add_zero_key (x : Dbl) (hx : x.isFinite = true) : (add x zero).key = x.key := by
+  have hm := (finite_iff x).mp hx
+  obtain ⟨_, k⟩ := add_finite_key x zero hm (by decide +kernel)
+  rw [k]
+  have ez : zero.exact = 0 := by decide +kernel
+  rw [ez, Int.add_zero, ofRat_key]
+  unfold exact key
+  cases hn : x.neg
+  · simp only [Bool.false_eq_true, if_false]
+    have : ¬ ((magVal x.mag : Int) < 0) := by omega
+    simp only [this, if_false, Int.natAbs_natCast, nearestBits_magVal x.mag hm]
+  · simp only [if_true]
+    by_cases h0 : x.mag = 0
+    · simp [h0, magVal_zero, nearestBits_zero]
+    · have hp : 0 < magVal x.mag := by
+        have := magVal_strictMono 0 x.mag (by omega)
+        rw [magVal_zero] at this; exact this
+      have : (-(magVal x.mag : Int)) < 0 := by omega
+      simp only [this, if_true, Int.natAbs_neg, Int.natAbs_natCast, nearestBits_magVal x.mag hm]
+
+/-! ### `random.uniform` on doubles -/
+
+theorem notNaN_of_finite (x : Dbl) (h : x.isFinite = true) : x.isNaN = false :=
+  (isNaN_false_iff x).mpr (by have := (finite_iff x).mp h; omega)
+
+theorem zero_key : zero.key = 0 := by decide +kernel
+
+theorem zero_le_of_key (x : Dbl) (hn : x.isNaN = false) (hk : 0 ≤ x.key) : zero ≤ x := by
+  refine ⟨by decide +kernel, hn, ?_⟩
+  rw [zero_key]
+  exact hk
+
+/-- `x - x` is a zero -/
+theorem sub_self_key (x : Dbl) (hx : x.isFinite = true) : (sub x x).isNaN = false ∧ (sub x x).key = 0 := by
+  have hm := (finite_iff x).mp hx
+  obtain ⟨n, k⟩ := add_finite_key x (neg' x) hm hm
+  unfold sub
+  refine ⟨n, ?_⟩
+  rw [k, neg_exact, ofRat_key]
+  have : x.exact + -x.exact = 0 := by omega
+  rw [this]
+  simp [nearestBits_zero]
+
+/-- `y - x ≥ 0` for finite `x ≤ y` -/
+theorem sub_nonneg (x y : Dbl) (hx : x.isFinite = true) (hxy : x ≤ y) : zero ≤ sub y x := by
+  have h1 := add_mono_left x y (neg' x) hx hxy
+  obtain ⟨n, k⟩ := sub_self_key x hx
+  have h0 : zero ≤ sub x x := zero_le_of_key _ n (by omega)
+  exact le_trans _ _ _ h0 h1
+
+/-- `d * r ≥ 0` for finite `d ≥ 0`, `r ≥ 0` -/
+theorem mul_nonneg (d r : Dbl) (hd : d.isFinite = true) (hd0 : zero ≤ d) (hr : r.isFinite = true)
+    (hr0 : zero ≤ r) : zero ≤ mul d r := by
+  have hdm := (finite_iff d).mp hd
+  have hrm := (finite_iff r).mp hr
+  have nd := notNaN_of_finite d hd
+  have nr := notNaN_of_finite r hr
+  have kd : (0 : Int) ≤ d.key := by
+    have := hd0.2.2
+    rw [zero_key] at this
+    exact this
+  by_cases hz : d.mag = 0
+  · -- a zero times a finite number is a zero
+    have id : d.isInf = false := by
+      cases h : d.isInf
+      · rfl
+      · have := (isInf_iff d).mp h; omega
+    have ir : r.isInf = false := by
+      cases h : r.isInf
+      · rfl
+      · have := (isInf_iff r).mp h; omega
+    have e : mul d r = ⟨d.neg != r.neg, 0⟩ := by
+      unfold mul
+      simp only [nd, nr, id, ir, Bool.or_self, Bool.false_eq_true, if_false, Bool.false_and, hz, magVal_zero,
+        Nat.zero_mul, nearestBits_zero]
+    rw [e]
+    exact zero_le_of_key _ (by simp [isNaN, infMag]) (by unfold key; split <;> simp)
+  · have hdn : d.neg = false := by
+      cases h : d.neg
+      · rfl
+      · unfold key at kd; rw [h] at kd; simp only [if_true] at kd; omega
+    have h1 := mul_pos_left_mono d zero r hdm (by omega) hdn hr0
+    have e : mul d zero = zero := by
+      rw [mul_pos_left_form d zero hdm (by omega) hdn (by decide +kernel)]
+      have := (mulMag_spec d.mag).2.1
+      show (⟨false, mulMag d.mag 0⟩ : Dbl) = ⟨false, 0⟩
+      rw [this]
+    rw [e] at h1
+    exact h1
+
+/-- Python's `random.uniform(x, y) = x + (y - x) * r` never falls below `x` on doubles (`x ≤ y` finite with a
+finite difference, `0 ≤ r` finite) -/
+theorem uniform_ge_lower (x y r : Dbl) (hx : x.isFinite = true) (hxy : x ≤ y)
+    (hd : (sub y x).isFinite = true) (hr : r.isFinite = true) (hr0 : zero ≤ r) :
+    x ≤ add x (mul (sub y x) r) := by
+  have h1 := mul_nonneg (sub y x) r hd (sub_nonneg x y hx hxy) hr hr0
+  have h2 := add_mono_right x _ _ hx h1
+  have k := add_zero_key x hx
+  have nx := notNaN_of_finite x hx
+  have h3 : x ≤ add x zero := ⟨nx, h2.1, by rw [k]; exact Int.le_refl _⟩
+  exact le_trans _ _ _ h3 h2
+
 end Dbl
 
 end AF.Prior
